@@ -11,11 +11,14 @@ A spec is
       | {"k":"scalar","dt":"real"|"integer"|"logical","acc":"read"}
 """
 
-FS = ["w0", "w1", "w2", "w2v", "w2h", "w2broken", "w2trace", "w2vtrace", "w2htrace", "w3", "wtheta",
-      "wchi", "any_w2", "any_space_1", "any_space_2", "any_space_3",
-      "any_discontinuous_space_1", "any_discontinuous_space_2"]
-DISC = {"w3", "wtheta", "w2v", "w2vtrace", "w2broken", "any_discontinuous_space_1",
-        "any_discontinuous_space_2"}
+FS = (["w0", "w1", "w2", "w2v", "w2h", "w2broken", "w2trace", "w2vtrace", "w2htrace", "w3", "wtheta",
+       "wchi", "any_w2"]
+      + [f"any_space_{i}" for i in range(1, 11)]                    # ids 13..22 (model: anySpaceBase = 13)
+      + [f"any_discontinuous_space_{i}" for i in range(1, 11)])     # ids 23..32
+DISC = {"w3", "wtheta", "w2v", "w2vtrace", "w2broken"} | {f"any_discontinuous_space_{i}" for i in range(1, 11)}
+# pairs (a, b) of distinct space names where a is a substring of b: a comparison by `in`, `startswith`
+# or a regex prefix instead of equality confuses exactly these
+CONFUSABLE = [(a, b) for a in FS for b in FS if a != b and a in b]
 READ_ONLY = {"wchi"}
 ACCESS = ["read", "write", "readwrite", "inc", "readinc", "sum"]
 STENCILS = ["none", "x1d", "y1d", "xory1d", "cross", "region", "cross2d"]
@@ -195,6 +198,8 @@ def gen_general(rng):
     nargs = rng.randint(1, 6)
     has_op = rng.random() < 0.4
     pool = rng.sample(FS, rng.randint(1, 4))
+    if rng.random() < 0.3:
+        pool = list(dict.fromkeys(pool[:2] + list(rng.choice(CONFUSABLE))))
     for i in range(nargs):
         r = rng.random()
         if r < 0.15:
@@ -222,8 +227,13 @@ def gen_cma(rng):
     md = blank("kc")
     kind = rng.choice(["assembly", "apply", "matrix-matrix"])
     to, frm = _pick_fs(rng, writable=True), _pick_fs(rng)
-    if rng.random() < 0.3:
+    r = rng.random()
+    if r < 0.25:
         frm = to
+    elif r < 0.6:
+        to, frm = rng.choice(CONFUSABLE)
+        if rng.random() < 0.5:
+            to, frm = frm, to
     if kind == "assembly":
         args = [{"k": "cma", "acc": rng.choice(["write", "readwrite"]), "to": to, "from": frm},
                 {"k": "op", "acc": "read", "to": to, "from": frm}]
@@ -376,4 +386,61 @@ def systematic_family():
             md["refelem"] = list(reversed(ps)) if (not mesh and len(ps) == 2) else list(ps)
             md["mesh"] = list(mesh)
             out.append(md)
+    return out
+
+
+def _cma_kernel(kind, to, frm, i):
+    md = blank(f"kq{i}")
+    rng = None
+    wacc = "readwrite" if to in DISC else "inc"
+    if kind == "assembly":
+        md["args"] = [{"k": "cma", "acc": "write", "to": to, "from": frm},
+                      {"k": "op", "acc": "read", "to": to, "from": frm}]
+    elif kind == "apply":
+        md["args"] = [_field(rng, to, wacc), _field(rng, frm, "read"),
+                      {"k": "cma", "acc": "read", "to": to, "from": frm}]
+    else:
+        md["args"] = [{"k": "cma", "acc": "write", "to": to, "from": frm},
+                      {"k": "cma", "acc": "read", "to": frm, "from": to},
+                      {"k": "scalar", "dt": "real", "acc": "read"}]
+    return md
+
+
+def cma_family():
+    """to/from pairs x {assembly, apply, matrix-matrix}, run first in every run: every pair of distinct
+    space names where one is a substring of the other, in both directions, plus an equal and an
+    unrelated pair."""
+    pairs = []
+    for a, b in CONFUSABLE:
+        pairs += [(a, b), (b, a)]
+    pairs += [("w2", "w2"), ("any_space_1", "any_space_1"), ("w0", "w3"), ("any_space_2", "any_discontinuous_space_2")]
+    out = []
+    for i, (to, frm) in enumerate(pairs):
+        for kind in ("assembly", "apply", "matrix-matrix"):
+            out.append(_cma_kernel(kind, to, frm, len(out)))
+    return out
+
+
+def confusable_family():
+    """General-purpose kernels whose arguments live on confusable space names (unique_fss, ndf/undf/dofmap,
+    basis and diff-basis names, evaluator targets, the any_space_1 test of the boundary-condition kernel)."""
+    out = []
+    for n, (a, b) in enumerate(CONFUSABLE):
+        first, second = (a, b) if n % 2 == 0 else (b, a)
+        md = blank(f"kn{n}")
+        md["args"] = [_field(None, first, "readwrite" if first in DISC else "inc"),
+                      _field(None, second, "read", vec=2),
+                      {"k": "op", "acc": "read", "to": second, "from": first},
+                      _field(None, first, "read", st="cross")]
+        concrete = [f for f in (second, first) if not f.startswith("any_") or f == "any_w2"]
+        md["funcs"] = [{"fs": f, "basis": True, "diff": True, "diff_first": False} for f in concrete]
+        if concrete:
+            md["shapes"] = ["evaluator", "xyoz"] if n % 2 else ["face", "evaluator"]
+            md["targets"] = [second, first] if n % 3 == 0 else []
+        out.append(md)
+    for args in ([("any_space_10", "inc")], [("any_space_1", "inc"), ("any_space_10", "read")],
+                 [("any_space_10", "inc"), ("any_space_1", "read")]):
+        md = blank("enforce_bc")
+        md["args"] = [_field(None, fs, acc) for fs, acc in args]
+        out.append(md)
     return out
